@@ -38,14 +38,20 @@ impl Ctx {
 
     /// subjects of this shard (round-robin by registry index), filtered
     pub fn my_subjects<'a>(&'a self, filter: impl Fn(&dyn Subject) -> bool + 'a) -> Vec<&'a dyn Subject> {
+        let only_fresh = self.extra.get("only").map(|v| v == "fresh").unwrap_or(false);
         self.reg
             .subjects
             .iter()
+            .filter(move |s| !only_fresh || is_fresh_id(s.id()))
             .filter(|s| filter(s.as_ref()))
             .enumerate()
             .filter(|(i, _)| i % self.shards == self.shard)
             .map(|(_, s)| s.as_ref())
             .collect()
+    }
+
+    pub fn only_fresh(&self) -> bool {
+        self.extra.get("only").map(|v| v == "fresh").unwrap_or(false)
     }
 
     pub fn has_tag(&self, id: &str, tag_prefix: &str) -> bool {
@@ -76,6 +82,11 @@ impl Ctx {
             hex(shown)
         ));
     }
+}
+
+/// subjects generated from VERIF_SEED by the thorough tier (fresh corpus slice 900, fresh catalogue)
+pub fn is_fresh_id(id: &str) -> bool {
+    id.starts_with("fresh:") || id.starts_with("C900") || id.contains("C900")
 }
 
 #[derive(Clone, Debug)]
